@@ -65,16 +65,18 @@ def sparseDen [AddCommMonoid R] (ents : List (Nat × Nat × R)) : MatF R :=
 /-! ## kernels -/
 
 /-- `Sum._matmat`: Python `sum(M @ v for M in Ms)` (starts from the integer 0) -/
-def sumMatmat [Zero R] [Add R] (acts : List (MatF R → MatF R)) (X : MatF R) : MatV R :=
-  MatV.of ((acts.map (fun f => f X)).foldl addM zeroM)
+def sumMatmat [Zero R] [Add R] (acts : List (MatF R → MatV R)) (X : MatF R) : MatV R :=
+  let vals := acts.map (fun f => f X)
+  MatV.of ((vals.map (·.f)).foldl addM zeroM)
 
 /-- `Concatenated._matmat`, axis = 1: `out = 0; for M: out = out + M @ V[i:i+c]; i += c` -/
-def hcatTerms : Nat → List (Nat × (MatF R → MatF R)) → MatF R → List (MatF R)
+def hcatTerms : Nat → List (Nat × (MatF R → MatV R)) → MatF R → List (MatV R)
   | _, [], _ => []
   | off, (c, act) :: rest, X => act (rowsFrom off X) :: hcatTerms (off + c) rest X
 
-def hcatMatmat [Zero R] [Add R] (acts : List (Nat × (MatF R → MatF R))) (X : MatF R) : MatV R :=
-  MatV.of ((hcatTerms 0 acts X).foldl addM zeroM)
+def hcatMatmat [Zero R] [Add R] (acts : List (Nat × (MatF R → MatV R))) (X : MatF R) : MatV R :=
+  let vals := hcatTerms 0 acts X
+  MatV.of ((vals.map (·.f)).foldl addM zeroM)
 
 /-- `KronSum._matmat` loop: `out = 0 * ev; for i, M: out += moveaxis(M @ front, 0, i)` -/
 def kronSumLoop [Zero R] [Add R] : Nat → List (FacAct R) → Tensor R → Tensor R → Tensor R
@@ -103,7 +105,7 @@ def bdiagBlock (M : FacAct R) (mult k off : Nat) (v : MatF R) : MatV R :=
   let sl := rowsFrom off v                                   -- (mult*c, k)
   let a1 := transposeM (reshape2 (mult * M.c) M.c (transposeM sl))   -- (c, k*mult)
   let elems := M.act (k * mult) a1                           -- (r, k*mult)
-  MatV.of (transposeM (reshape2 M.r (mult * M.r) (transposeM elems)))  -- (mult*r, k)
+  MatV.of (transposeM (reshape2 M.r (mult * M.r) (transposeM elems.f)))  -- (mult*r, k)
 
 /-- `BlockDiag._matmat` -/
 def bdiagBlocks (k : Nat) : Nat → List (FacAct R × Nat) → MatF R → List (Nat × MatF R)
@@ -136,12 +138,14 @@ def houseDen [Ring R] [Star R] (v : Nat → R) (beta : R) : MatF R :=
   fun i j => (if i = j then 1 else 0) - beta * v i * star (v j)
 
 /-- `Sliced._matmat`: zero buffer, scatter rows, product with the parent, gather rows -/
-def slicedMatmat [Zero R] (act : MatF R → MatF R) (rs cs : List Nat) (X : MatF R) : MatV R :=
-  MatV.of (gatherRows rs (act (scatterRows cs X)))
+def slicedMatmat [Zero R] (act : MatF R → MatV R) (rs cs : List Nat) (X : MatF R) : MatV R :=
+  let out := act (scatterRows cs X)
+  MatV.of (gatherRows rs out.f)
 
 /-- `Sliced._rmatmat` (the same on the transposed side) -/
-def slicedRmatmat [Zero R] (ract : MatF R → MatF R) (rs cs : List Nat) (X : MatF R) : MatV R :=
-  MatV.of (transposeM (gatherRows cs (transposeM (ract (transposeM (scatterRows rs (transposeM X)))))))
+def slicedRmatmat [Zero R] (ract : MatF R → MatV R) (rs cs : List Nat) (X : MatF R) : MatV R :=
+  let out := ract (transposeM (scatterRows rs (transposeM X)))
+  MatV.of (transposeM (gatherRows cs (transposeM out.f)))
 
 def slicedDen (A : MatF R) (rs cs : List Nat) : MatF R :=
   fun i j => A (rs.getD i 0) (cs.getD j 0)
